@@ -1,5 +1,15 @@
-/- C07 — state contract (theorems; being extended). -/
-import PrecondVerif.Model.Layout
+/-
+C07 — state contract: shapes preserved, layout stable, every accepted configuration runs.
+
+All theorems are about the definitions of `Model/Layout.lean` that `drv_c07` executes, for every
+configuration in the modelled option space and every list of parameter shapes (any number of
+parameters, any ranks and dimensions), and any number of updates.
+
+Not proved here (decided on executed inputs only): that `sharded_update_fn`'s model `shardedStep`
+leaves the sharded layout fixed — the driver evaluates `shardedStep` three times on every sharded case
+and the harness requires `post_equal`; exception *messages*; values.
+-/
+import PrecondVerif.Lemmas.Layout
 
 namespace PrecondVerif.C07
 open PrecondVerif.Shapes PrecondVerif.Layout
@@ -13,5 +23,155 @@ theorem update_shapes_eq_params (c : Cfg) (ps : List (List Nat)) :
     simp only [updateShapes, List.mem_map] at hl
     obtain ⟨s, _, rfl⟩ := hl
     rfl
+
+/-- an accepted configuration's initial layout is `initLayout` -/
+theorem layoutInit_ok (c : Cfg) (ps : List (List Nat)) (L : DSLayout) (h : layoutInit c ps = .ok L) :
+    L = initLayout c ps := by
+  unfold layoutInit at h
+  simp only [bind, Except.bind] at h
+  cases hv : validate c with
+  | error e => simp [hv] at h
+  | ok u => simp [hv, pure, Except.pure] at h; exact h.symm
+
+/-- **Layout is a fixed point of update.** If the constructor accepts the configuration, one update of
+the initial layout either returns exactly the initial layout, or is an explanatory rejection raised
+while the roots are traced (`all layers are too small for compression_rank` / the LOBPCG size check) —
+never a changed layout. Every `lax.cond` / `while_loop` type check of the update passes. -/
+theorem layout_fixpoint (c : Cfg) (ps : List (List Nat)) (L : DSLayout) (h : layoutInit c ps = .ok L) :
+    layoutStep c ps L = .ok L ∨ ∃ cls, layoutStep c ps L = .error (.reject .update cls) := by
+  rw [layoutInit_ok c ps L h, layoutStep_init]
+  cases hr : stepRejects c ps with
+  | none => left; rfl
+  | some e =>
+    right
+    unfold stepRejects at hr
+    simp only [] at hr
+    split at hr
+    · cases hr
+    · unfold rootReject at hr
+      split at hr
+      · cases hr; exact ⟨_, rfl⟩
+      · split at hr
+        · cases hr; exact ⟨_, rfl⟩
+        · cases hr
+
+/-- ... hence after any number of updates (induction over the history) -/
+theorem layout_fixpoint_steps (c : Cfg) (ps : List (List Nat)) (L : DSLayout) (k : Nat)
+    (h : layoutInit c ps = .ok L) (hacc : stepRejects c ps = none) :
+    layoutSteps c ps k L = .ok L := by
+  rw [layoutInit_ok c ps L h]
+  exact layoutSteps_init c ps hacc k
+
+/-- **No internal error**: constructor, `init` and any number of updates of Distributed Shampoo
+(replicated / pmap mode) end in success or in an explanatory rejection, for every configuration and
+every parameter tree. -/
+theorem no_internal_error (c : Cfg) (ps : List (List Nat)) (k : Nat) (e : Err)
+    (h : dsRun c ps k = .error e) : e.isInternal = false := by
+  unfold dsRun layoutInit at h
+  simp only [bind, Except.bind] at h
+  cases hv : validate c with
+  | error e' =>
+    simp [hv] at h
+    subst h
+    exact validate_not_internal c e' hv
+  | ok u =>
+    simp only [hv, pure, Except.pure] at h
+    cases k with
+    | zero => simp [layoutSteps, pure, Except.pure] at h
+    | succ k =>
+      cases hr : stepRejects c ps with
+      | none => rw [layoutSteps_init c ps hr] at h; cases h
+      | some e' =>
+        rw [layoutSteps_init_rejected c ps e' hr] at h
+        cases h
+        exact stepRejects_not_internal c ps e' hr
+
+/-- the constructor's rejections are explanatory -/
+theorem validate_rejects_explicitly (c : Cfg) (e : Err) (h : validate c = .error e) :
+    e = .reject .construct .valueError := by
+  unfold validate at h
+  repeat' split at h
+  all_goals first | (cases h; rfl) | cases h
+
+/-- **Sharded declarations are consistent**: whenever `sharded_init_fn` succeeds,
+`sharded_init_shape_and_dtype_fn` succeeds and declares exactly the initial state's tree (structure,
+static fields, every leaf's shape and dtype), and `sharded_init_partition_spec_fn` has the same tree
+structure. Hypotheses: statistic sizes are positive (true for dims ≥ 1); one partition-spec entry per
+parameter dimension. -/
+theorem sharded_decl_consistent (c : Cfg) (ps : List (List Nat)) (pspecs : List (List String))
+    (statSpec : List String) (L : ShardedLayout)
+    (hpos : ∀ d ∈ ps.flatMap (statDims c), 0 < d) (hspec : specsFit ps pspecs)
+    (h : shardedInit c ps = .ok L) :
+    shapeDtypeDecl c ps = .ok (shardedSig L) ∧
+    skeleton (pspecDecl c ps pspecs statSpec) = skeleton (shardedSig L) :=
+  ⟨shardedInit_decl c ps L hpos h, pspecDecl_skeleton c ps pspecs statSpec L hspec h⟩
+
+/-- sharded `init` never fails internally -/
+theorem sharded_init_no_internal_error (c : Cfg) (ps : List (List Nat)) (e : Err)
+    (h : shardedInit c ps = .error e) : e.isInternal = false := by
+  unfold shardedInit at h
+  simp only [bind, Except.bind] at h
+  cases hv : validate c with
+  | error e' => simp [hv] at h; subst h; exact validate_not_internal c e' hv
+  | ok u =>
+    simp only [hv] at h
+    split at h
+    · cases h; rfl
+    · cases h
+
+/-- SM3: rank-0 parameters are rejected explicitly, otherwise the layout is a fixed point of update -/
+theorem sm3_layout_fixpoint (ps : List (List Nat)) :
+    (∀ L, sm3Init ps = .ok L → sm3Step ps L = .ok L) ∧
+    (∀ e, sm3Init ps = .error e → e = .reject .init .valueError) := by
+  unfold sm3Init
+  constructor
+  · intro L h
+    split at h
+    · cases h
+    · simp only [pure, Except.pure, Except.ok.injEq] at h
+      subst h
+      exact sm3Step_init ps
+  · intro e h
+    split at h
+    · cases h; rfl
+    · cases h
+
+/-- Tearfree (Shampoo and Sketchy, every grafting / momentum option): the state layout after an update
+is the initial one -/
+theorem tearfree_layout_fixpoint (c : TFCfg) (ps : List (List Nat)) (L : TFLayout)
+    (h : tfInit c ps = .ok L) : tfStep c L = .ok L :=
+  tfStep_init c ps L h
+
+/-! ### non-vacuity -/
+
+def exCfg : Cfg :=
+  { blockSize := 4, bestEffortShape := true, mergeBlock := 4096, graftHasDiag := true, batchAxis := false,
+    shard := false, ndev := 2, memReduction := true, skipDimGt := 4096, skipRankLt := 1, lobpcgTopk := 0,
+    ptype := .input, fdMetrics := true, trainMetrics := true, compRank := 2, fd := true, reset := false,
+    avgGrad := true, reuse := true, eigh := false, statSteps := 2, precondSteps := 2, scheduled := false }
+
+/-- a frequent-directions configuration with compression that is accepted and not rejected at update time -/
+example : validate exCfg = .ok () ∧ stepRejects exCfg [[6, 5], [7], []] = none := by decide
+
+/-- ... and one that is accepted by the constructor but rejected (explicitly) at the first update -/
+example : validate exCfg = .ok () ∧
+    stepRejects exCfg [[2, 2]] = some (.reject .update .assertionError) := by decide
+
+example : specsFit [[3, 4], [5]] [["", ""], [""]] := by simp [specsFit]
+
+example : (∀ d ∈ [[6, 5], [7]].flatMap (statDims { exCfg with shard := true }), 0 < d) := by decide
+
+/-! ### negative witnesses (regression documentation of repaired defects) -/
+
+/-- D3: had `_compute_stats` returned a `MaskedNode` for `avg_grad` (as the unrepaired code did for
+skipped parameters), the next update of a preconditioned parameter would fail its type check -/
+theorem d3_masked_avg_grad_breaks_update :
+    computeStats exCfg [6, 5] { initParam exCfg [6, 5] with ag := none } =
+      .error (.internal .update "avg_grad is a MaskedNode") := by decide
+
+/-- D6: a declaration with a float32 `count` is not the initial state's signature -/
+theorem d6_count_dtype_matters :
+    leafSig countLeaf ≠ Sig.leaf [] "float32" := by
+  simp [leafSig, countLeaf, DT.name]
 
 end PrecondVerif.C07
